@@ -76,9 +76,13 @@ fn case(srv: &mut Srv, seed: u64, res: &mut CaseResult) -> R<()> {
     let a = srv.new_context()?;
     let b = srv.new_context()?;
     // numerically adjacent context ids, registered by import
-    let x = Scru128Id::from(scru128::new().to_u128() - 0x10000);
+    // ... chosen so that x -> x+1 carries over one byte (…FF -> …00) and y -> y+1 over two (…FFFF -> …0000)
+    let base = scru128::new().to_u128() - 0x1000000;
+    let x = Scru128Id::from((base & !0xffu128) | 0xff);
     let x1 = Scru128Id::from(x.to_u128() + 1);
-    for id in [x, x1] {
+    let y = Scru128Id::from(((base - 0x1000000) & !0xffffu128) | 0xffff);
+    let y1 = Scru128Id::from(y.to_u128() + 1);
+    for id in [x, x1, y, y1] {
         let f = Frame::builder("xs.context", ZERO_CONTEXT).id(id).build();
         let v = srv.call(json!({"op": "import", "frame": f}))?;
         if v.get("ok").is_none() {
@@ -86,7 +90,7 @@ fn case(srv: &mut Srv, seed: u64, res: &mut CaseResult) -> R<()> {
             return Ok(());
         }
     }
-    let ctxs: Vec<(Scru128Id, &str)> = vec![(ZERO_CONTEXT, "zero"), (a, "A"), (b, "B"), (x, "X"), (x1, "X+1")];
+    let ctxs: Vec<(Scru128Id, &str)> = vec![(ZERO_CONTEXT, "zero"), (a, "A"), (b, "B"), (x, "X"), (x1, "X+1"), (y, "Y"), (y1, "Y+1")];
     let label: BTreeMap<Scru128Id, &str> = ctxs.iter().cloned().collect();
     let topics = ["t", "ta", ""];
 
